@@ -1760,6 +1760,11 @@ lydjson_subtree_r(struct lyd_json_ctx *lydctx, struct lyd_node *parent, struct l
                 }
                 LY_DPARSER_ERR_GOTO(r, rc = r, lydctx, cleanup);
 
+                /* rememeber a successfully parsed instance */
+                if (parsed && node) {
+                    ly_set_add(parsed, node, 1, NULL);
+                }
+
                 lydjson_maintain_children(parent, first_p, &node,
                         lydctx->parse_opts & LYD_PARSE_ORDERED ? LYD_INSERT_NODE_LAST : LYD_INSERT_NODE_DEFAULT, ext);
 
